@@ -194,6 +194,8 @@ def _bit_interp(src):
     it = _std_externs(_BitIt(src))
     it.extern_fns["char::from_u32"] = lambda a: some(("char", a[0]))           # the Some case: which scalar value the assembled bits denote
     it.extern_fns["char::from_u32_unchecked"] = lambda a: ("char", a[0])
+    it.extern_fns["char::from"] = lambda a: ("char", a[0])                     # char::from(u8): the scalar value with that byte's bits
+    it.extern_fns["char::from_digit"] = lambda a: _unsup("char::from_digit is not a bit layout")
     return it
 
 
@@ -1359,6 +1361,9 @@ def t5_utf8(ctx):
         except Unsupported as ex:
             ctx.anchor("T5-UTF8", where + "/shape", "utf8_decode is not evaluable on a %d-byte sequence: %s" % (L, ex))
             return
+        if isinstance(got, bf.Val):
+            # `char::from(byte)` / `byte as char`: the declared return type is char, the value is the scalar with these bits
+            got = ("char", got)
         if not (isinstance(got, tuple) and len(got) == 2 and got[0] == "char" and isinstance(got[1], bf.Val)):
             ctx.instance("T5-UTF8", {"length": L, "ok": False, "result": repr(got)[:80]})
             ctx.violation("T5-UTF8", where, "conversion", "the assembled code is not handed unchanged to char::from_u32 (%d-byte sequence gives %r)" % (L, got), sites=site)
